@@ -544,6 +544,43 @@ fn registry() -> Vec<PDef> {
         pd("dz.fse_unzip_reference", true, false, false),
         pd("dz.fse.decompress.fast_pa_zip", false, true, false),
     ];
+    // every container shape also with HEAP-OWNING element types (a decoder that fails on element k of n must
+    // release exactly what it built: String / Vec / Box / Rc elements make a wrong drop a crash)
+    for t in [
+        "h_arr4_string",
+        "h_arr2_vecu8",
+        "h_arr3_optstring",
+        "h_arr3_vecstring",
+        "h_tuple_string_vecu8",
+        "h_tuple_nested",
+        "h_option_vecstring",
+        "h_result_string_vecu8",
+        "h_hashmap_string_vecu8",
+        "h_btreemap_string_vecstring",
+        "h_hashset_string",
+        "h_btreeset_string",
+    ] {
+        v.push(pd(Box::leak(format!("complex.meta.{t}").into_boxed_str()), false, false, false));
+        v.push(pd(Box::leak(format!("complex.raw.{t}").into_boxed_str()), false, false, false));
+    }
+    for n in [
+        "complex.batchh.meta.arr4_string",
+        "complex.batchh.raw.arr2_vecu8",
+        "complex.batchh.raw.tuple_string_vecu8",
+        "smartptr.h_arc_string",
+        "smartptr.h_optbox_string",
+        "smartptr.h_arc_vecu8",
+        "smartptr.h_box_optstring",
+        "smartptr.h_rc_vecvecstring",
+        "smartptr.h_rc_hashmap_string_vecu8",
+        "smartptr.h_box_box_string",
+        "versioned.strict.hrec",
+        "versioned.flexible.hrec",
+        "versioned.proxy_string",
+        "versioned.version",
+    ] {
+        v.push(pd(n, false, false, false));
+    }
     for t in ["tuple2", "array4", "option", "result", "hashmap", "hashset", "btreemap", "btreeset"] {
         v.push(pd(Box::leak(format!("complex.meta.{t}").into_boxed_str()), false, false, false));
         v.push(pd(Box::leak(format!("complex.raw.{t}").into_boxed_str()), false, false, false));
@@ -1131,6 +1168,192 @@ fn setup(name: &str, pl: &[Vec<u8>], want_encs: bool, cur: Option<&Enc>, tmp: &P
                 "hex.parse_hex_byte" => Box::new(|x, _| x.len() >= 2 && parse_hex_byte(x[0], x[1]).is_some()),
                 "hex.is_valid_hex" => Box::new(|x, _| is_valid_hex(&lossy(x))),
                 _ => Box::new(|x, _| !x.is_empty() && x.iter().all(|&b| hex_char_to_nibble(b).is_some())),
+            }
+        }
+        n if n.starts_with("complex.meta.h_") || n.starts_with("complex.raw.h_") => {
+            let meta = n.starts_with("complex.meta.");
+            let s = |x: &str| x.to_string();
+            let vs = |x: &[&str]| -> Vec<String> { x.iter().map(|y| y.to_string()).collect() };
+            // three or more elements each, so that a truncation / an invalid byte / a maximised length hits the
+            // first, a middle and the last element (the error path after some elements were built)
+            match n.rsplit('.').next().unwrap() {
+                "h_arr4_string" => complex_setup::<[String; 4]>(
+                    meta,
+                    vec![[s("first element"), s("second"), s("third one, a little longer than the others"), s("last")], [s(""), s("x"), s(""), s("yz")]],
+                    &mut el,
+                ),
+                "h_arr2_vecu8" => complex_setup::<[Vec<u8>; 2]>(meta, vec![[vec![1, 2, 3, 4, 5, 6, 7, 8, 9], vec![0xFF; 20]], [vec![], vec![7]]], &mut el),
+                "h_arr3_optstring" => {
+                    complex_setup::<[Option<String>; 3]>(meta, vec![[Some(s("some")), None, Some(s("more text here"))], [None, None, Some(s("z"))]], &mut el)
+                }
+                "h_arr3_vecstring" => complex_setup::<[Vec<String>; 3]>(
+                    meta,
+                    vec![[vs(&["a", "bb", "ccc"]), vs(&[]), vs(&["dddd dddd dddd dddd", "e"])], [vs(&["only"]), vs(&["x", "y"]), vs(&[])]],
+                    &mut el,
+                ),
+                "h_tuple_string_vecu8" => complex_setup::<(String, Vec<u8>)>(meta, vec![(s("tuple text"), vec![9, 8, 7, 6, 5]), (s(""), vec![])], &mut el),
+                "h_tuple_nested" => complex_setup::<(Vec<Vec<String>>, Option<String>, Box<String>)>(
+                    meta,
+                    vec![
+                        (vec![vs(&["a", "bc"]), vs(&[]), vs(&["def", "gh", "i"])], Some(s("opt")), Box::new(s("boxed"))),
+                        (vec![vs(&["solo"])], None, Box::new(s(""))),
+                    ],
+                    &mut el,
+                ),
+                "h_option_vecstring" => complex_setup::<Option<Vec<String>>>(meta, vec![Some(vs(&["one", "two", "three"])), None], &mut el),
+                "h_result_string_vecu8" => {
+                    complex_setup::<std::result::Result<String, Vec<u8>>>(meta, vec![Ok(s("fine text")), Err(vec![1, 2, 3, 4, 5, 6])], &mut el)
+                }
+                "h_hashmap_string_vecu8" => {
+                    let mut m = HashMap::new();
+                    m.insert(s("alpha"), vec![1u8, 2, 3]);
+                    m.insert(s("beta"), vec![]);
+                    m.insert(s("gamma gamma"), vec![0xAB; 12]);
+                    let mut m2 = HashMap::new();
+                    m2.insert(s("k"), vec![1u8]);
+                    complex_setup::<HashMap<String, Vec<u8>>>(meta, vec![m, m2], &mut el)
+                }
+                "h_btreemap_string_vecstring" => {
+                    let mut m = BTreeMap::new();
+                    m.insert(s("a"), vs(&["x", "yy"]));
+                    m.insert(s("bb"), vs(&[]));
+                    m.insert(s("ccc"), vs(&["zzz zzz", "w", "v"]));
+                    let mut m2 = BTreeMap::new();
+                    m2.insert(s("k"), vs(&["v"]));
+                    complex_setup::<BTreeMap<String, Vec<String>>>(meta, vec![m, m2], &mut el)
+                }
+                "h_hashset_string" => {
+                    complex_setup::<HashSet<String>>(meta, vec![vs(&["red", "green", "blue blue"]).into_iter().collect(), vs(&["k"]).into_iter().collect()], &mut el)
+                }
+                _ => complex_setup::<BTreeSet<String>>(meta, vec![vs(&["red", "green", "blue blue"]).into_iter().collect(), vs(&["k"]).into_iter().collect()], &mut el),
+            }
+        }
+        "complex.batchh.meta.arr4_string" | "complex.batchh.raw.arr2_vecu8" | "complex.batchh.raw.tuple_string_vecu8" => {
+            let meta = name.contains(".meta.");
+            let cfg = if meta { ComplexTypeConfig::safe() } else { ComplexTypeConfig::compact() };
+            let ser = ComplexTypeSerializer::new(cfg);
+            let s = |x: &str| x.to_string();
+            fn batch<T: ComplexSerialize + 'static>(ser: ComplexTypeSerializer, vals: Vec<T>, el: &mut EncList) -> Runner {
+                if el.want {
+                    if let Ok(b) = ser.serialize_batch(&vals) {
+                        el.add(0, b, 0, vec![]);
+                    }
+                    if let Ok(b) = ser.serialize_batch(&vals[..1]) {
+                        el.add(1, b, 0, vec![]);
+                    }
+                }
+                Box::new(move |x, _| ser.deserialize_batch::<T>(x).is_ok())
+            }
+            match name.rsplit('.').next().unwrap() {
+                "arr4_string" => batch::<[String; 4]>(
+                    ser,
+                    vec![[s("a"), s("bb"), s("ccc"), s("dddd")], [s(""), s(""), s("x"), s("")], [s("last"), s("record"), s("of the"), s("batch")]],
+                    &mut el,
+                ),
+                "arr2_vecu8" => batch::<[Vec<u8>; 2]>(ser, vec![[vec![1, 2, 3], vec![4]], [vec![], vec![5; 9]], [vec![6, 7], vec![]]], &mut el),
+                _ => batch::<(String, Vec<u8>)>(ser, vec![(s("one"), vec![1]), (s("two two"), vec![2, 2]), (s(""), vec![3, 3, 3])], &mut el),
+            }
+        }
+        "smartptr.h_arc_string" => smart_setup::<String, Arc<String>>(vec![Arc::new("atomically shared".to_string()), Arc::new(String::new())], &mut el),
+        "smartptr.h_optbox_string" => smart_setup::<String, Option<Box<String>>>(vec![Some(Box::new("maybe boxed".to_string())), None], &mut el),
+        "smartptr.h_arc_vecu8" => smart_setup::<Vec<u8>, Arc<Vec<u8>>>(vec![Arc::new(vec![1, 2, 3, 4, 5, 6, 7]), Arc::new(vec![])], &mut el),
+        "smartptr.h_box_optstring" => smart_setup::<Option<String>, Box<Option<String>>>(vec![Box::new(Some("inner".to_string())), Box::new(None)], &mut el),
+        "smartptr.h_rc_vecvecstring" => smart_setup::<Vec<Vec<String>>, Rc<Vec<Vec<String>>>>(
+            vec![
+                Rc::new(vec![vec!["a".to_string(), "bc".to_string()], vec![], vec!["def".to_string(), "g".to_string(), "hi".to_string()]]),
+                Rc::new(vec![vec!["solo".to_string()]]),
+            ],
+            &mut el,
+        ),
+        "smartptr.h_rc_hashmap_string_vecu8" => {
+            let mut m = HashMap::new();
+            m.insert("alpha".to_string(), vec![1u8, 2, 3]);
+            m.insert("beta".to_string(), vec![]);
+            m.insert("gamma".to_string(), vec![9u8; 6]);
+            smart_setup::<HashMap<String, Vec<u8>>, Rc<HashMap<String, Vec<u8>>>>(vec![Rc::new(m), Rc::new(HashMap::new())], &mut el)
+        }
+        "smartptr.h_box_box_string" => {
+            smart_setup::<Box<String>, Box<Box<String>>>(vec![Box::new(Box::new("twice boxed".to_string())), Box::new(Box::new(String::new()))], &mut el)
+        }
+        "versioned.strict.hrec" | "versioned.flexible.hrec" | "versioned.proxy_string" | "versioned.version" => {
+            use zipora::io::versioning::{Version, VersionConfig, VersionManager, VersionProxy, VersionedSerialize, VersionedSerializer};
+            use zipora::io::{DataOutput, VecDataOutput};
+            /// a record whose every field owns heap memory, the last one added in a later version
+            struct HRec {
+                id: u32,
+                name: String,
+                tags: Vec<String>,
+                note: Option<String>,
+            }
+            impl VersionedSerialize for HRec {
+                fn current_version() -> Version {
+                    Version::new(1, 2, 0)
+                }
+                fn serialize_with_manager<O: DataOutput>(&self, m: &mut VersionManager, o: &mut O) -> zipora::error::Result<()> {
+                    m.register_field("note", Version::new(1, 1, 0));
+                    m.serialize_field("id", &self.id, o)?;
+                    m.serialize_field("name", &self.name, o)?;
+                    m.serialize_field("tags", &self.tags, o)?;
+                    m.serialize_field("note", &self.note, o)
+                }
+                fn deserialize_with_manager<I: DataInput>(m: &mut VersionManager, i: &mut I) -> zipora::error::Result<Self> {
+                    m.register_field("note", Version::new(1, 1, 0));
+                    let id = m.deserialize_field::<u32, _>("id", i)?.unwrap_or(0);
+                    let name = m.deserialize_field::<String, _>("name", i)?.unwrap_or_default();
+                    let tags = m.deserialize_field::<Vec<String>, _>("tags", i)?.unwrap_or_default();
+                    let note = m.deserialize_field::<Option<String>, _>("note", i)?.unwrap_or(None);
+                    Ok(HRec { id, name, tags, note })
+                }
+            }
+            let recs = || {
+                vec![
+                    HRec { id: 7, name: "record name".into(), tags: vec!["t1".into(), "tag two".into(), "t3".into()], note: Some("a note".into()) },
+                    HRec { id: 0, name: String::new(), tags: vec![], note: None },
+                ]
+            };
+            match name {
+                "versioned.proxy_string" => {
+                    if want_encs {
+                        for (i, t) in ["proxied text", ""].iter().enumerate() {
+                            let mut o = VecDataOutput::new();
+                            let px = VersionProxy::new(t.to_string(), Version::new(1, 0, 0));
+                            if px.serialize(&mut o).is_ok() {
+                                el.add(i, o.into_vec(), 0, vec![]);
+                            }
+                        }
+                    }
+                    Box::new(|x, _| <VersionProxy<String> as SerializableType>::deserialize(&mut SliceDataInput::new(x)).is_ok())
+                }
+                "versioned.version" => {
+                    if want_encs {
+                        for (i, v) in [Version::new(1, 2, 3), Version::new(255, 255, 65535)].iter().enumerate() {
+                            let mut o = VecDataOutput::new();
+                            if v.serialize(&mut o).is_ok() {
+                                el.add(i, o.into_vec(), 0, vec![]);
+                            }
+                        }
+                    }
+                    Box::new(|x, _| <Version as SerializableType>::deserialize(&mut SliceDataInput::new(x)).is_ok())
+                }
+                _ => {
+                    let cfg = || if name.contains("strict") { VersionConfig::strict() } else { VersionConfig::flexible() };
+                    if want_encs {
+                        let ser = VersionedSerializer::new(cfg());
+                        for (i, r) in recs().iter().enumerate() {
+                            if let Ok(b) = ser.serialize_to_bytes(r) {
+                                el.add(i, b, 0, vec![]);
+                            }
+                        }
+                    }
+                    let ser = VersionedSerializer::new(cfg());
+                    Box::new(move |x, _| match ser.deserialize_from_bytes::<HRec>(x) {
+                        Ok(r) => {
+                            std::hint::black_box((r.id, r.name.len(), r.tags.len(), r.note.is_some()));
+                            true
+                        }
+                        Err(_) => false,
+                    })
+                }
             }
         }
         "dz.remove_fse_compression.pa_zip" | "dz.remove_fse_compression.fast_pa_zip" | "dz.fse_unzip_reference" | "dz.fse.decompress.fast_pa_zip" => {
